@@ -1,2 +1,3 @@
 pub mod enc;
 pub mod docgen;
+pub mod rawpdf;
